@@ -1,4 +1,4 @@
-\* E03 thorough: all 8 forward DAGs x 6 boundary markings x classic/core, types system and system-now, one user abort
+\* E03 thorough: all 8 forward DAGs x 6 boundary markings x classic/core, type system
 SPECIFICATION MCRSpec
 CONSTANTS
   N = 3
@@ -8,14 +8,14 @@ CONSTANTS
   MaxWaitRes = 0
   MaxTime = 1
   MaxRestart = 1
-  MaxAbort = 1
+  MaxAbort = 0
   MaxBoot = 2
   MaxCalls = 2
   BoundaryChoices <- BoundQuick
   ClassicChoices <- BoolBoth
-  TypeChoices <- TypesSysNow
+  TypeChoices <- TypesSys
   DagChoices <- ForwardDags
   BootAnywhere = FALSE
 VIEW RView
-INVARIANTS TypeOK RTypeOK E03a E03b E03c E03d E03e
+INVARIANTS TypeOK RTypeOK I_E03a I_E03b I_E03c I_E03d I_E03e PanicOnlyByAbort
 CHECK_DEADLOCK FALSE
